@@ -75,6 +75,8 @@ GEN = {
                                                  {"decl": "const std::string &label() const"}]},
         {"decl": "enum Mode { ONE, TWO = 5 }"},
         {"decl": "Mode mode(Mode m)"},
+        # an assumed-rank argument: one Fortran specific per rank (rank 0 passes the scalar to the scalar interface)
+        {"decl": "int sumValues(const int *values +dimension(..), int nvalues)", "options": {"wrap_lua": False, "wrap_python": False, "F_assumed_rank_max": 2}},
         # an enumeration with a member defined by an expression over earlier members, followed by members without a value
         {"decl": "enum Level { QUIET, INFO = 4, WARN, NOISY = INFO + WARN, DEBUGL, TRACE }"},
         # defaulted arguments whose conversion declares a C++ local (enum cast, std::string): one scope per case of the Python switch
@@ -136,6 +138,7 @@ class Thing { public: Thing(); Thing(int n, int fill = 3); ~Thing(); double val(
   int stats(int *count, int scale) const; int last(int scale, int *count) const; int tally(int *total, int step) const; };
 enum Mode { ONE, TWO = 5 };
 Mode mode(Mode m);
+int sumValues(const int *values, int nvalues);
 enum Level { QUIET, INFO = 4, WARN, NOISY = INFO + WARN, DEBUGL, TRACE };
 int paint(int n, Mode c = ONE); int label2(int n, const std::string &name = "x"); int both(Mode c = TWO, const std::string &name = "y", int k = 3);
 namespace inner { int deep(int x); }
